@@ -4,20 +4,173 @@ import (
 	"go/types"
 
 	"golang.org/x/tools/go/ssa"
+
+	"verif/engine/smt"
 )
 
+func (e *Engine) chanContent(st *State, ch PtrV, where string) (*Obj, *ChanContent) {
+	a, ok := ch.single()
+	if !ok {
+		panic(e.unsupported("channel value with several targets at " + where))
+	}
+	if a.Obj == nil {
+		return nil, nil
+	}
+	cc, _ := st.Heap[a.Obj].(*ChanContent)
+	return a.Obj, cc
+}
+
+func (e *Engine) sharedChan(st *State, ch PtrV) bool {
+	if st.Th == nil {
+		return false
+	}
+	a, ok := ch.single()
+	return ok && a.Obj != nil && a.Obj.Thread != st.Th.ID
+}
+
+// Sequential semantics: the FIFO has a concrete fill. An operation that would block forever in a
+// single-threaded run is reported (noblock).
 func (e *Engine) chanSend(st *State, ch PtrV, v Value, where string) {
-	panic(e.unsupported("channel send at " + where))
+	if e.sharedChan(st, ch) {
+		e.chanEvent(st, EvChanSend, ch, where)
+		return
+	}
+	o, cc := e.chanContent(st, ch, where)
+	if o == nil {
+		e.fail(st, e.C.True, "noblock:send-on-nil-channel", where)
+		return
+	}
+	e.fail(st, cc.Closed, "nopanic:send-on-closed-channel", where)
+	if len(cc.Buf) >= cc.Cap {
+		e.fail(st, e.C.True, "noblock:send-would-block-forever", where)
+		return
+	}
+	nc := &ChanContent{Cap: cc.Cap, Closed: cc.Closed, Buf: append(append([]Value{}, cc.Buf...), v)}
+	st.Heap[o] = nc
 }
 
 func (e *Engine) chanRecv(st *State, ch PtrV, commaOk bool, typ types.Type, where string) Value {
-	panic(e.unsupported("channel receive at " + where))
+	c := e.C
+	var et types.Type
+	if commaOk {
+		et = typ.(*types.Tuple).At(0).Type()
+	} else {
+		et = typ
+	}
+	if e.sharedChan(st, ch) {
+		ev := e.chanEvent(st, EvChanRecv, ch, where)
+		if commaOk {
+			return TupleV{e.zero(et), BoolV{ev.Res}}
+		}
+		return e.zero(et)
+	}
+	o, cc := e.chanContent(st, ch, where)
+	if o == nil {
+		e.fail(st, c.True, "noblock:receive-on-nil-channel", where)
+		return e.zero(typ)
+	}
+	if len(cc.Buf) > 0 {
+		v := cc.Buf[0]
+		st.Heap[o] = &ChanContent{Cap: cc.Cap, Closed: cc.Closed, Buf: append([]Value{}, cc.Buf[1:]...)}
+		if commaOk {
+			return TupleV{v, BoolV{c.True}}
+		}
+		return v
+	}
+	e.fail(st, c.Not(cc.Closed), "noblock:receive-would-block-forever", where)
+	if commaOk {
+		return TupleV{e.zero(et), BoolV{c.False}}
+	}
+	return e.zero(et)
 }
 
 func (e *Engine) chanClose(st *State, ch PtrV, where string) {
-	panic(e.unsupported("channel close at " + where))
+	if e.sharedChan(st, ch) {
+		e.chanEvent(st, EvChanClose, ch, where)
+		return
+	}
+	o, cc := e.chanContent(st, ch, where)
+	if o == nil {
+		e.fail(st, e.C.True, "nopanic:close-of-nil-channel", where)
+		return
+	}
+	e.fail(st, cc.Closed, "nopanic:close-of-closed-channel", where)
+	st.Heap[o] = &ChanContent{Cap: cc.Cap, Closed: e.C.True, Buf: cc.Buf}
 }
 
+// selectOp: supported forms: non-blocking select (default) and blocking select, evaluated
+// sequentially: the first ready case in source order is taken (Go picks pseudo-randomly among
+// ready cases; harnesses that depend on the choice must not use this path).
 func (e *Engine) selectOp(fr *frame, st *State, regs map[ssa.Value]Value, x *ssa.Select, where string) Value {
-	panic(e.unsupported("select at " + where))
+	c := e.C
+	// result tuple: (index int, recvOk bool, r_0 ... r_{n-1}) with r_i for receive states
+	nrecv := 0
+	for _, s := range x.States {
+		if s.Dir == types.RecvOnly {
+			nrecv++
+		}
+	}
+	mk := func(idx smt.Term, ok smt.Term, recvVals []Value) Value {
+		tv := TupleV{IntV{idx}, BoolV{ok}}
+		tv = append(tv, recvVals...)
+		return tv
+	}
+	zeros := func() []Value {
+		var out []Value
+		for _, s := range x.States {
+			if s.Dir == types.RecvOnly {
+				out = append(out, e.zero(s.Chan.Type().Underlying().(*types.Chan).Elem()))
+			}
+		}
+		return out
+	}
+	// thread mode, shared channels: only the single-case non-blocking form
+	if len(x.States) == 1 && !x.Blocking {
+		s := x.States[0]
+		ch := e.operand(fr, regs, s.Chan).(PtrV)
+		if e.sharedChan(st, ch) {
+			kind := EvChanTrySend
+			if s.Dir == types.RecvOnly {
+				kind = EvChanTryRecv
+			}
+			ev := e.chanEvent(st, kind, ch, where)
+			idx := c.Ite(ev.Res, c.BV(0, 64), c.BV(^uint64(0), 64))
+			return mk(idx, ev.Res, zeros())
+		}
+	}
+	// sequential evaluation over concrete fills
+	rv := zeros()
+	ri := 0
+	for i, s := range x.States {
+		ch := e.operand(fr, regs, s.Chan).(PtrV)
+		if e.sharedChan(st, ch) {
+			panic(e.unsupported("multi-case select on a channel shared between threads at " + where))
+		}
+		o, cc := e.chanContent(st, ch, where)
+		if s.Dir == types.SendOnly {
+			if o != nil && len(cc.Buf) < cc.Cap && cc.Closed.IsFalse() {
+				v := e.operand(fr, regs, s.Send)
+				st.Heap[o] = &ChanContent{Cap: cc.Cap, Closed: cc.Closed, Buf: append(append([]Value{}, cc.Buf...), v)}
+				return mk(c.BV(uint64(i), 64), c.False, rv)
+			}
+			continue
+		}
+		if o != nil && len(cc.Buf) > 0 {
+			rv[ri] = cc.Buf[0]
+			st.Heap[o] = &ChanContent{Cap: cc.Cap, Closed: cc.Closed, Buf: append([]Value{}, cc.Buf[1:]...)}
+			return mk(c.BV(uint64(i), 64), c.True, rv)
+		}
+		if o != nil && cc.Closed.IsTrue() {
+			return mk(c.BV(uint64(i), 64), c.False, rv)
+		}
+		if o != nil && !cc.Closed.IsFalse() {
+			panic(e.unsupported("select on a channel whose closed flag is symbolic at " + where))
+		}
+		ri++
+	}
+	if !x.Blocking {
+		return mk(c.BV(^uint64(0), 64), c.False, rv)
+	}
+	e.fail(st, c.True, "noblock:select-would-block-forever", where)
+	return mk(c.BV(0, 64), c.False, rv)
 }
